@@ -51,6 +51,12 @@ pub enum Op {
     /// keys to drop, (key -> new priority) rewrites (applied to every visited element, kept or not)
     RetainMut(Vec<u32>, Vec<(u32, i32)>),
     IterMut { steps: Vec<ImStep>, end: End, via_ref: bool },
+    /// `q.iter_mut().for_each(..)`: the i-th visited element gets writes[i] (None = untouched)
+    IterMutForEach { writes: Vec<Option<i32>> },
+    /// `q.iter_mut().find(..)` stopping at the j-th element, which gets a priority written
+    IterMutFind { stop_at: u8, prio: i32 },
+    /// `q.clone_from(&other)` where other is built from these pairs
+    CloneFrom(Vec<Pair>),
     Extend(Vec<Pair>, Hint),
     Append(Vec<Pair>),
     Clear,
@@ -410,6 +416,74 @@ pub fn step<Q: QueueLike>(q: &mut Q, op: &Op, m: &mut Model, unordered: &mut boo
                 }
             }
             Ok(Ret::Pairs(out))
+        }
+        Op::IterMutForEach { writes } => {
+            let it = q.q_iter_mut();
+            let mut seen: Vec<Pair> = vec![];
+            let mut ix = 0usize;
+            it.for_each_(&mut |(i, p): (&mut Item, &mut Prio)| {
+                fault_point(C_CLOSURE);
+                seen.push(pair_of(i, p));
+                if let Some(Some(np)) = writes.get(ix) {
+                    *p = Prio::new(*np);
+                }
+                ix += 1;
+            });
+            let mut log = seen.clone();
+            check_visit_log("iter_mut().for_each", &mut log, m)?;
+            for (j, pr) in seen.iter().enumerate() {
+                if let Some(Some(np)) = writes.get(j) {
+                    m.get_mut(&pr.0).unwrap().1 = *np;
+                }
+            }
+            Ok(Ret::Pairs(seen))
+        }
+        Op::IterMutFind { stop_at, prio } => {
+            let mut it = q.q_iter_mut();
+            let mut n = 0u8;
+            let found = it.find_(&mut |_t: &(&mut Item, &mut Prio)| {
+                n += 1;
+                n > *stop_at
+            });
+            let mut out = vec![];
+            if let Some((i, p)) = found {
+                let cur = pair_of(i, p);
+                if m.get(&cur.0) != Some(&(cur.1, cur.2)) {
+                    bail!("iter_mut().find yielded {cur:?}, the map holds {:?}", m.get(&cur.0));
+                }
+                *p = Prio::new(*prio);
+                m.get_mut(&cur.0).unwrap().1 = *prio;
+                out.push(cur);
+            } else if (*stop_at as usize) < m.len() {
+                bail!("iter_mut().find stopped before element {} of {}", stop_at, m.len());
+            }
+            drop(it);
+            Ok(Ret::Pairs(out))
+        }
+        Op::CloneFrom(other) => {
+            let mut o = Q::q_new();
+            let mut om = Model::new();
+            for &pr in other {
+                let (i, p) = mk(pr);
+                o.q_push(i, p);
+                match om.get_mut(&pr.0) {
+                    Some(v) => v.1 = pr.2,
+                    None => {
+                        om.insert(pr.0, (pr.1, pr.2));
+                    }
+                }
+            }
+            let so = o.snap();
+            q.q_clone_from(&o);
+            if o.snap() != so {
+                bail!("clone_from changed its source");
+            }
+            if q.snap() != so {
+                bail!("clone_from gives a different arrangement than its source: {:?} vs {:?}", q.snap(), so);
+            }
+            *m = om;
+            *unordered = false;
+            Ok(Ret::Unit)
         }
         Op::Extend(seq, hint) => {
             let before = m.clone();
